@@ -1,0 +1,45 @@
+//go:build verif
+
+// Machine-checked contracts for package schema (comment-only; read by /verif/gocv).
+
+package schema
+
+// effKind: the reflect kind ValueFrom dispatches on when no item type is declared
+// (the pointee's kind for pointers).
+//@ spec func effKind(v any) uint =
+//@   (vkind(reflect.ValueOf(v)) == 22 ? vkind(reflect.ValueOf(v).Elem()) : vkind(reflect.ValueOf(v)))
+
+//@ spec func effVal(v any) reflect.Value =
+//@   (vkind(reflect.ValueOf(v)) == 22 ? reflect.ValueOf(v).Elem() : reflect.ValueOf(v))
+
+//@ spec func knownType(t ItemType) bool =
+//@   t == ItemTypeObject || t == ItemTypeArray || t == ItemTypeInteger || t == ItemTypeString || t == ItemTypeBoolean || t == ItemTypeFloat
+
+//@ func (*Value).ValueFrom
+//@   prop C16
+//@   modifies iv.ItemType, iv.ItemValue
+//@   ensures [copy-of-value] is(value, *Value) ==> iv.ItemType == old(value.(*Value).ItemType) && iv.ItemValue == old(value.(*Value).ItemValue)
+//@   ensures [declared-type-kept] !is(value, *Value) && knownType(old(iv.ItemType)) ==> iv.ItemType == old(iv.ItemType)
+//@   ensures [undeclared-integer] !is(value, *Value) && !knownType(old(iv.ItemType)) && effKind(value) >= 2 && effKind(value) <= 11 ==> iv.ItemType == ItemTypeInteger
+//@   ensures [undeclared-bool] !is(value, *Value) && !knownType(old(iv.ItemType)) && effKind(value) == 1 ==> iv.ItemType == ItemTypeBoolean
+//@   ensures [undeclared-float] !is(value, *Value) && !knownType(old(iv.ItemType)) && (effKind(value) == 13 || effKind(value) == 14) ==> iv.ItemType == ItemTypeFloat
+//@   ensures [undeclared-string] !is(value, *Value) && !knownType(old(iv.ItemType)) && effKind(value) == 24 ==> iv.ItemType == ItemTypeString && iv.ItemValue == effVal(value).String()
+//@   ensures [undeclared-array] !is(value, *Value) && !knownType(old(iv.ItemType)) && (effKind(value) == 23 || effKind(value) == 17) ==> iv.ItemType == ItemTypeArray
+//@   ensures [undeclared-object] !is(value, *Value) && !knownType(old(iv.ItemType)) && (effKind(value) == 21 || effKind(value) == 25) ==> iv.ItemType == ItemTypeObject
+//@   ensures [undeclared-other-untyped] !is(value, *Value) && !knownType(old(iv.ItemType)) && (effKind(value) == 0 || effKind(value) == 12 || effKind(value) == 15 || effKind(value) == 16 || (effKind(value) >= 18 && effKind(value) <= 20) || effKind(value) == 22 || effKind(value) == 26) ==>
+//@             iv.ItemType == old(iv.ItemType) && iv.ItemValue == old(iv.ItemValue)
+
+//@ func NewValue
+//@   prop C16
+//@   modifies nothing
+//@   ensures result != nil && fresh(result)
+
+//@ func (*Value).DeepCopy
+//@   prop C16
+//@   modifies nothing
+//@   ensures fresh(result) && result.ItemType == iv.ItemType && result.ItemValue == iv.ItemValue
+
+//@ func (*Item).ToValue
+//@   prop C16
+//@   modifies nothing
+//@   ensures fresh(result) && result.ItemType == i.Type && result.ItemValue == i.Value
